@@ -2,19 +2,21 @@
 
 package lz
 
-// lzvc-props: C01 C02 C13 C16
-// (GSAP's Parse, sort, Reset are verified relative to the ASSUMED contracts of the bitset
-// methods, which this stand-in validates)
+// lzvc-props: C01 C02
+// (GSAP's Parse and sort are verified relative to the ASSUMED contract of suffix.Sort; this stand-in
+// exercises GSAP end to end, so it also runs under the properties GSAP's share of which rests on it)
 //
 // Bounded stand-in for C12.
 //
-//  1. The ASSUMED contracts of bitset.{insert, clear, memberBefore, memberAfter} (abstract set
-//     view g_Mbs) are validated against a reference set on pseudo-random and systematic
-//     operation sequences, including re-growth below the old range after clear().
-//  2. GSAP itself: on histories without Parse(nil) every emitted match has exactly the length of
+//  1. GSAP itself: on histories without Parse(nil) every emitted match has exactly the length of
 //     the longest match against ALL earlier buffered positions (clipped at the block end), and
 //     when BufferSize <= WindowSize a position is emitted as a literal only if no earlier
-//     position offers MinMatchLen bytes - computed by brute force.
+//     position offers MinMatchLen bytes - computed by brute force. (The deductive part proves that
+//     the two rank neighbours are used; that one of them is the longest match is lemma N.)
+//  2. The bitset methods (now PROVED against their contracts, see verif_contracts.go) are also
+//     compared with a reference set on pseudo-random and systematic operation sequences,
+//     including re-growth below the old range after clear(): an executable cross-check of the
+//     contracts themselves.
 //
 // Labelled "bounded" in the evidence; never counted as proved.
 
